@@ -36,17 +36,17 @@ type jprobe struct {
 func jprobes() []jprobe {
 	return []jprobe{
 		{"typepb.Field", "google", func() interface{} {
-			return &typepb.Field{Kind: typepb.Field_TYPE_INT64, Cardinality: typepb.Field_CARDINALITY_REPEATED, Number: 1 << 40 >> 20, Name: "f\"é"}
+			return &typepb.Field{Kind: typepb.Field_TYPE_INT64, Cardinality: typepb.Field_CARDINALITY_REPEATED, Number: 1 << 40 >> 20, Name: "f\"é:  x:   y", JsonName: "a: b,  \"c\":  {"}
 		}, func() interface{} { return &typepb.Field{} }, "kind", "3", "packed"},
 		{"typepb.Type", "google", func() interface{} {
-			return &typepb.Type{Name: "T", Fields: []*typepb.Field{{Kind: typepb.Field_TYPE_BYTES, Name: "b"}}, Oneofs: []string{"o"}, Syntax: typepb.Syntax_SYNTAX_PROTO3}
+			return &typepb.Type{Name: "T:  t", Fields: []*typepb.Field{{Kind: typepb.Field_TYPE_BYTES, Name: "b\n:  \t:  "}}, Oneofs: []string{"o:   p", "  "}, Syntax: typepb.Syntax_SYNTAX_PROTO3}
 		}, func() interface{} { return &typepb.Type{} }, "syntax", "1", "edition"},
 		{"gogotypes.Field", "gogo", func() interface{} {
-			return &gogotypes.Field{Kind: gogotypes.Field_TYPE_INT64, Cardinality: gogotypes.Field_CARDINALITY_REPEATED, Number: 77, Name: "f\"é"}
+			return &gogotypes.Field{Kind: gogotypes.Field_TYPE_INT64, Cardinality: gogotypes.Field_CARDINALITY_REPEATED, Number: 77, Name: "f\"é:  x"}
 		}, func() interface{} { return &gogotypes.Field{} }, "kind", "3", "packed"},
 		{"gogotypes.Int64Value", "gogo", func() interface{} { return &gogotypes.Int64Value{Value: -1 << 62} }, func() interface{} { return &gogotypes.Int64Value{} }, "", "", ""},
 		{"LegacyV1", "googlev1", func() interface{} {
-			return &LegacyV1{A: i32(-7), S: str("lég\"acy"), R: []int64{1, -1, 1 << 53}, B: []byte{0, 255}}
+			return &LegacyV1{A: i32(-7), S: str("lég\"acy:  x"), R: []int64{1, -1, 1 << 53}, B: []byte{0, 255}}
 		},
 			func() interface{} { return &LegacyV1{} }, "", "", ""},
 	}
